@@ -23,7 +23,7 @@ class _ThreadingShim:
 
     def Condition(self, lock=None):
         self._n += 1
-        return _SimCondition(self._sim, 'future-%d' % self._n)
+        return _SimCondition(self._sim, 'future-%d' % self._n, poll_on_enter=True)
 
     def Event(self):
         self._n += 1
